@@ -143,6 +143,18 @@ func Scramble(r *mon.Rand, n *Node, pct int) {
 // values, and (when allowTags) tagged items. Integers stay within int64
 // except negative values down to -2^64 which are allowed as values.
 func WireValue(r *mon.Rand, depth int, allowTags bool) *Node {
+	if depth <= 1 && r.Intn(40) == 0 {
+		// a deeply nested value (inside the decoder's default nesting limit)
+		v := refcbor.NInt(1)
+		for d := 0; d < 6+r.Intn(15); d++ {
+			if d%3 == 2 {
+				v = refcbor.NMap(refcbor.NInt(int64(d)), v)
+			} else {
+				v = refcbor.NArr(v)
+			}
+		}
+		return v
+	}
 	k := r.Intn(16)
 	if depth >= 4 && k >= 10 {
 		k = r.Intn(10)
@@ -256,6 +268,12 @@ func WireHeader(r *mon.Rand, o WireHeaderOpts) (*Node, int64) {
 		n = r.Intn(o.MaxEntries + 1)
 	}
 	allowTags := o.Protected
+	if o.MaxEntries >= 5 && r.Intn(12) == 0 {
+		// a bucket with 24 or more parameters
+		for j := 0; j < 24+r.Intn(20); j++ {
+			put(refcbor.NInt(int64(200000+j*7)), WireValue(r, 2, allowTags))
+		}
+	}
 	for i := 0; i < n; i++ {
 		switch r.Intn(12) {
 		case 0:
